@@ -193,6 +193,13 @@ func cmdCheck(args []string) {
 			obs = append(obs, o)
 		}
 	}
+	for _, o := range obs {
+		for _, k := range known {
+			if k.Status == "known" && k.Obligation == baseName(o.Name) && *tier != "thorough" {
+				o.TimeoutS = 4 // a listed finding only has to be seen to fail still
+			}
+		}
+	}
 	solveAll(obs, pres, timeout, 16, *tier == "thorough", dir)
 	if cfg.StableScan {
 		for _, o := range g.stableScan() {
@@ -258,8 +265,9 @@ func cmdCheck(args []string) {
 		g.replay(o, rf)
 		isKnown := false
 		for _, k := range known {
-			if k.Status == "known" && k.Property == *prop && k.Obligation == baseName(o.Name) {
+			if k.Status == "known" && k.Obligation == baseName(o.Name) {
 				isKnown = true
+				knownObl[baseName(o.Name)] = true
 				knownLines = append(knownLines, fmt.Sprintf("KNOWN-FINDING: property=%s %s (%s)", *prop, k.What, k.Obligation))
 			}
 		}
@@ -310,6 +318,15 @@ func cmdCheck(args []string) {
 		}
 		for _, o := range obs {
 			bn := baseName(o.Name)
+			isKnownF := false
+			for _, k := range known {
+				if k.Status == "known" && k.Obligation == bn {
+					isKnownF = true
+				}
+			}
+			if isKnownF {
+				continue
+			}
 			if (o.Res == nil || o.Res.Status != "unsat" || slow[bn]) && !have[bn] && !seen[bn] {
 				have[bn] = true
 				reason := "not discharged on the unchanged tree when the claimed set was recorded (" + o.Res.Status + "): needs an invariant that is not contracted yet; undecided, not a violation"
@@ -338,13 +355,20 @@ func cmdCheck(args []string) {
 	finish(*prop, *tier, seed, cfg, frs, obs, violations, append(ifaceUsed, trustedUsed...), t0, len(knownLines))
 }
 
+var knownObl = map[string]bool{}
+
 func finish(prop, tier string, seed int, cfg *propConfig, frs []*FuncResult, obs []*Oblig, violations []*replayFile, assumedContracts []string, t0 time.Time, nKnown int) {
 	// evidence
 	discharged := 0
 	byBackend := map[string]int{}
 	solverTime := 0.0
 	var samples []interface{}
+	nObl := 0
 	for _, o := range obs {
+		if knownObl[baseName(o.Name)] {
+			continue
+		}
+		nObl++
 		if o.Res != nil {
 			solverTime += o.Res.TimeS
 			if o.Res.Status == "unsat" {
@@ -382,7 +406,7 @@ func finish(prop, tier string, seed int, cfg *propConfig, frs []*FuncResult, obs
 		samples = append(samples, "no obligations generated")
 	}
 	cov := map[string]interface{}{
-		"obligations":              len(obs),
+		"obligations":              nObl,
 		"discharged":               discharged,
 		"checker_cmd":              fmt.Sprintf("/verif/bin/gvc check --property %s --tier %s", prop, tier),
 		"trusted_base":             append([]string{"golang.org/x/tools/go/ssa (SSA construction)", "gvc SSA->SMT translation (guarded by must-fail mutants)", "z3 5.1.0 / z3 4.8.12 / cvc5 1.0.3"}, cfg.TrustedBase...),
@@ -408,7 +432,7 @@ func finish(prop, tier string, seed int, cfg *propConfig, frs []*FuncResult, obs
 	data, _ := json.MarshalIndent(ev, "", " ")
 	os.WriteFile(filepath.Join(verifDir, "evidence", prop+".json"), append(data, '\n'), 0o644)
 	if len(violations) == 0 {
-		fmt.Printf("OK property=%s obligations=%d discharged=%d functions=%d wall=%.1fs\n", prop, len(obs), discharged, len(funcs), time.Since(t0).Seconds())
+		fmt.Printf("OK property=%s obligations=%d discharged=%d known-finding-obligations=%d functions=%d wall=%.1fs\n", prop, nObl, discharged, len(knownObl), len(funcs), time.Since(t0).Seconds())
 		os.Exit(0)
 	}
 	rdir := filepath.Join(verifDir, "replays", prop)
